@@ -194,6 +194,17 @@ func (v *Validator) VerifyNewConfirms(block *types.Block, sigList []types.SignDa
 	hash := block.Hash()
 	validConfirms := make([]types.SignData, 0, len(sigList))
 	var lastErr error = nil
+	// Every node counts once. Signatures are not unique per signer (an ECDSA signature can be re-encoded), so remember the
+	// nodes that signed this block already: the miner and the signers of the stored confirms
+	signed := make(map[string]struct{}, len(block.Confirms)+len(sigList)+1)
+	if minerID, err := block.SignerNodeID(); err == nil {
+		signed[string(minerID)] = struct{}{}
+	}
+	for _, oldSig := range block.Confirms {
+		if oldID, err := oldSig.RecoverNodeID(hash); err == nil {
+			signed[string(oldID)] = struct{}{}
+		}
+	}
 
 	for _, sig := range sigList {
 		// 判断validConfirms中是否已经存在sig了
@@ -215,10 +226,11 @@ func (v *Validator) VerifyNewConfirms(block *types.Block, sigList []types.SignDa
 			lastErr = ErrInvalidConfirmSigner
 			continue
 		}
-		if block.IsConfirmExist(sig) {
+		if _, isSigned := signed[string(nodeID)]; isSigned || block.IsConfirmExist(sig) {
 			log.Warn("Duplicate confirm", "hash", hash.Hex(), "signer", common.ToHex(nodeID[:4]))
 			continue
 		}
+		signed[string(nodeID)] = struct{}{}
 		validConfirms = append(validConfirms, sig)
 	}
 	return validConfirms, lastErr
